@@ -227,6 +227,11 @@ def c05_boundary(state):
         from .props.c19 import gsc_oracle
 
         want = gsc_oracle(run.spec, tree)
+        if want is None and run.spec["gsc"]["kind"] == "SingularProblemPrecisionReached":
+            # the precision condition holds from the first answer within the precision of the optimum (0) on —
+            # a NaN answer is never within it
+            eps = run.spec["gsc"]["precision"]
+            want = any(v == v and abs(v) <= eps for r in {id(r): r for r in run.objs["recs"]}.values() for _, _, v in r.calls)
         if want is None:
             return
         cond = getattr(getattr(run, "inner_gsc", None), "inner", None)
